@@ -341,6 +341,23 @@ fn exhaustive_read(which: usize, rep: &mut Report) {
     for frag in [vec![], vec![521usize, 523, 1044], (1..long.len()).step_by(7).collect::<Vec<usize>>()] {
         run_read_case(&ReadCase { tape: long.clone(), boundaries: frag, faults: vec![], reads: 6, label: "maximum_length_frames_back_to_back" }, rep);
     }
+    // ... and the same with interrupted reads: one to six interrupts (each position fires once or several times) spread
+    // over the first maximum-length line, then further ones in the later lines — a reader that budgets its read calls
+    // by the line length runs out exactly here
+    for k in 1..=if which == 0 { 6usize } else { 0 } {
+        for start in [0usize, 1, 260, 516, 520, 521, 522] {
+            let mut faults = vec![];
+            for j in 0..k {
+                let pos = (start + j * 3).min(522);
+                if faults.iter().all(|f: &(usize, ReadFault, usize)| f.0 != pos) {
+                    faults.push((pos, ReadFault::Interrupted, 1));
+                }
+            }
+            run_read_case(&ReadCase { tape: long.clone(), boundaries: vec![], faults: faults.clone(), reads: 6, label: "maximum_length_frames_interrupted" }, rep);
+            // the same number of interrupts at ONE position, and a copy of the pattern in the third line
+            run_read_case(&ReadCase { tape: long.clone(), boundaries: vec![start], faults: vec![(start, ReadFault::Interrupted, k), (523 + 521 + start.min(500), ReadFault::Interrupted, k)], reads: 6, label: "maximum_length_frames_interrupted" }, rep);
+        }
+    }
     rep.count("exhaustive_read_sets_done");
 }
 
@@ -576,6 +593,7 @@ pub fn run(ctx: &Ctx) -> Outcome {
         floor("compositions of a 14-byte stream all enumerated (8192)", report.get("compositions_enumerated") >= 8192, report.get("compositions_enumerated")),
         floor("exhaustive write set", report.get("exhaustive_write_sets_done") == 1, report.get("exhaustive_write_sets_done")),
         floor("the same frame on consecutive lines; wrong terminators made of CR / blank / tab", report.get("lines/same_frame_as_previous_line") > 1000 && report.get("lines/doubled_cr") > 100 && report.get("lines/blank_near_terminator") > 100, report.get("lines/same_frame_as_previous_line")),
+        floor("maximum-length lines read through 1..6 interrupted reads", report.get("read_cases/maximum_length_frames_interrupted") == 84, report.get("read_cases/maximum_length_frames_interrupted")),
         floor("multi-frame streams", report.get("multi_frame_streams") > 0, report.get("multi_frame_streams")),
         floor("read faults of each kind fired", ["faults_fired/interrupted", "faults_fired/hard_error", "faults_fired/eof"].iter().all(|k| report.get(k) > 0), report.get("faults_fired/hard_error")),
         floor("frames read successfully", report.get("frames_read_ok") > 1000, report.get("frames_read_ok")),
